@@ -11,12 +11,37 @@ Definition mem (c : list Z) (l : list (list Z)) : bool := existsb (zl_eqb c) l.
 Definition dec_children (t : tree) : option (list (list Z)) :=
   tlist (fun e => match e with L [c; _] => tlist tZ c | _ => None end) t.
 
+(* long complementary parents (first all 0, second all 1: the child IS the mask of genes taken from the second) *)
+Fixpoint drop_zeros (l : list Z) : list Z := match l with 0 :: r => drop_zeros r | _ => l end.
+Fixpoint drop_ones (l : list Z) : list Z := match l with 1 :: r => drop_ones r | _ => l end.
+(* the ones form one contiguous (possibly empty) segment: 0* 1* 0* *)
+Definition one_segment (m : list Z) : bool :=
+  match drop_zeros (drop_ones (drop_zeros m)) with [] => true | _ => false end.
+Fixpoint all_masks (k : nat) : list (list Z) :=
+  match k with O => [[]] | S k' => flat_map (fun m => [0 :: m; 1 :: m]) (all_masks k') end.
+
+Definition judge_long (kind : Z) (rest : list tree) (o : tree) : option (list Z) :=
+  match kind, rest, o with
+  | 10, [A _; A len; _; _], L [A 0; ch] =>
+    olet ch := dec_children ch in
+    Some [if forallb (fun c => Nat.eqb (length c) (Z.to_nat len) && one_segment c) ch then 0 else 2]
+  | 11, [A _; A _; pos; _; _], L [A 0; ch] =>
+    olet pos := tlist tZ pos in olet ch := dec_children ch in
+    let want := all_masks (length pos) in
+    let sound := forallb (fun c => mem c want) ch in
+    let complete := forallb (fun c => mem c ch) want in
+    Some [if sound && complete then 0 else 2; if sound then 0 else 1; if complete then 0 else 1]
+  | _, _, _ => Some [2; 9]
+  end.
+
 Definition judge (t : tree) : option (list Z) :=
   match t with
   | L [L (A kind :: a :: b :: rest); o] =>
     olet a := tlist tZ a in olet b := tlist tZ b in
-    if kind <? 6 then
-      let sup := if kind <? 3 then two_point_support a b else uniform_support a b in
+    if (kind =? 10) || (kind =? 11) then judge_long kind rest o else
+    let two_point := (kind <? 3) || (kind =? 8) in
+    if (kind <? 6) || (kind =? 8) || (kind =? 9) then
+      let sup := if two_point then two_point_support a b else uniform_support a b in
       let coverage := match rest with [_; _; A 1] => true | _ => false end in
       match sup, o with
       | None, L [A 1] => Some [0]
